@@ -254,8 +254,15 @@ where
                         take!(DateToken::Colon);
                         let m = take!(DateToken::Number(s, None), s);
                         if let Some(m) = parse_range(&m, 2, 0..=59) {
-                            out.offset = Some(s * (h * 3600 + m * 60));
-                            Ok(())
+                            // The hour count is unbounded here; range is
+                            // checked by the caller, but must not overflow.
+                            match h.checked_mul(3600).and_then(|h| h.checked_add(m * 60)) {
+                                Some(secs) => {
+                                    out.offset = Some(s * secs);
+                                    Ok(())
+                                }
+                                None => Err(format!("Offset {}:{:02} is out of range", h, m)),
+                            }
                         } else {
                             Err(format!("Expected 2 digits after : in offset, got {}", m))
                         }
